@@ -188,6 +188,19 @@ where
         }
     }
 
+    /// Verification hook (only compiled with `--cfg etherparse_verif`):
+    /// number of partially reconstructed streams currently held, number of
+    /// pooled data buffers & number of pooled section buffers.
+    #[cfg(etherparse_verif)]
+    #[doc(hidden)]
+    pub fn verif_stats(&self) -> (usize, usize, usize) {
+        (
+            self.active.len(),
+            self.finished_data_bufs.len(),
+            self.finished_section_bufs.len(),
+        )
+    }
+
     /// Returns a buffer to the pool so it can be re-used.
     pub fn return_buf(&mut self, buf: IpDefragPayloadVec) {
         self.finished_data_bufs.push(buf.payload);
